@@ -6,11 +6,11 @@ CONSTANTS
   ShallowSub = FALSE
   IgnoreNs = FALSE
   ModSharedPath = FALSE
-  MaxMod = 0
+  MaxMod = 1
   NodeU <- NodeU4
   MaxAssoc = 2
   CreateNs = {1, 2}
-  ClsU = {"AB", "ABS", "ABSS", "AT", "AL"}
+  ClsU = {"AB", "AT", "AL"}
   AcU <- AcSmall
   RcU <- RcSmall
   RlU <- RlSmall
